@@ -183,6 +183,121 @@ def run_other_thread() -> List[tuple]:
     return out
 
 
+def run_selfparent(case) -> dict:
+    """A greenlet inspecting itself whose direct parent never started, or is already dead: exactly its own frames."""
+    import functools
+
+    import greenlet
+    import stackscope
+
+    res: Dict[str, Any] = {"names": None, "problems": []}
+
+    def body(n):
+        if n:
+            return body(n - 1)
+        st = stackscope.extract(greenlet.getcurrent(), with_contexts=False)
+        res["names"] = [f.funcname for f in st.frames]
+        res["err"] = repr(st.error) if st.error is not None else None
+        return None
+
+    def idle(*a):
+        return None
+
+    def spawn(level):
+        # run at the bottom of `level` further greenlets, each with a live parent, the last one with the odd parent
+        if level > 1:
+            g = greenlet.greenlet(functools.partial(spawn, level - 1))
+            g.switch()
+            return
+        p = greenlet.greenlet(idle)
+        if case["state"] == "dead":
+            p.switch()
+        g = greenlet.greenlet(functools.partial(body, case["depth"]), parent=p)
+        g.switch()
+
+    spawn(case["chain"])
+    want = ["body"] * (case["depth"] + 1)
+    if res["names"] != want:
+        res["problems"].append(f"extract(getcurrent()) from a greenlet whose parent is {case['state']} gave {res['names']}, its own frames are {want}")
+    if res.get("err"):
+        res["problems"].append(f"error {res['err']}")
+    return res
+
+
+def run_asyncio_cancel(case) -> dict:
+    """greenback under asyncio: a cancellation is *thrown* into the task (Trio only ever sends values), a coroutine below a
+    bridge catches it and goes on through `depth` further await_ bridges; the plumbing that delivered it must stay hidden."""
+    import asyncio
+
+    import greenback
+    import stackscope
+
+    res: Dict[str, Any] = {"problems": []}
+    depth = case["depth"]
+
+    async def leaf():
+        await asyncio.sleep(3600)
+
+    def mk_sync(k):
+        def sync_fn():
+            greenback.await_(mk_async(k)())
+        sync_fn.__code__ = sync_fn.__code__.replace(co_name=f"sync{k}")
+        return sync_fn
+
+    def mk_async(k):
+        async def async_fn():
+            if k == 0:
+                await leaf()
+            else:
+                mk_sync(k - 1)()
+        async_fn.__code__ = async_fn.__code__.replace(co_name=f"async{k}")
+        return async_fn
+
+    async def catcher():
+        try:
+            await asyncio.sleep(3600)
+        except asyncio.CancelledError:
+            mk_sync(depth)()
+
+    def entry():
+        greenback.await_(catcher())
+
+    async def task_body():
+        await greenback.ensure_portal()
+        entry()
+
+    async def main():
+        t = asyncio.create_task(task_body())
+        await asyncio.sleep(0.05)
+        t.cancel()
+        await asyncio.sleep(0.05)
+        st = stackscope.extract(t.get_coro(), with_contexts=False)
+        res["visible"] = [f"{(f.modname or '').split('.')[0]}:{f.funcname}" for f in st.frames if not f.hide]
+        res["error"] = repr(st.error) if st.error is not None else None
+        t.cancel()
+        try:
+            await t
+        except BaseException:
+            pass
+
+    asyncio.run(main())
+    vis = res.get("visible", [])
+    bad = [v for v in vis if v.split(":")[0] in ("outcome", "greenlet") or (v.split(":")[0] == "greenback" and not v.endswith(("greenback_shim", "adapt_awaitable")))]
+    if bad:
+        res["problems"].append(f"bridging internals visible in the task's stack after a caught cancellation: {bad} (all visible: {vis})")
+    want = []
+    k = depth
+    while k >= 0:
+        want += [f"sync{k}", f"async{k}"]
+        k -= 1
+    mine = [v.split(":")[1] for v in vis if v.split(":")[1].startswith(("sync", "async")) and v[-1].isdigit()]
+    if mine != want:
+        res["problems"].append(f"bridge frames {mine}, expected {want} (all visible: {vis})")
+    if res.get("error"):
+        res["problems"].append(f"error {res['error']}")
+    return res
+
+
 def run_greenback(case) -> dict:
     import greenback
     import stackscope
@@ -299,6 +414,12 @@ class C15(PropCheck):
             out.append({"k": "greenlet", "depths": [rng.randint(0, 6) for _ in range(k)], "asker": rng.choice(["outside", "inside"]),
                         "outer_depth": rng.randint(0, 3)})
         out.append({"k": "otherthread"})
+        for depth in (0, 1, 2):
+            out.append({"k": "asyncio_cancel", "depth": depth})
+        for state in ("unstarted", "dead"):
+            for depth in (0, 2):
+                for chain in (1, 2):
+                    out.append({"k": "selfparent", "state": state, "depth": depth, "chain": chain})
         for m in range(0, 4):
             for where in ("outside", "inside"):
                 out.append({"k": "greenback", "alternations": m, "where": where})
@@ -314,6 +435,14 @@ class C15(PropCheck):
             case["_queries"] = [q for _, _, q, _ in r]
             self._probs = [p for _, _, _, p in r if p]
             return "§".join(obs for _, obs, _, _ in r)
+        if case["k"] == "asyncio_cancel":
+            r = run_asyncio_cancel(case)
+            self._probs = r["problems"]
+            return json.dumps(r.get("visible"))
+        if case["k"] == "selfparent":
+            r = run_selfparent(case)
+            self._probs = r["problems"]
+            return json.dumps(r["names"])
         if case["k"] == "otherthread":
             r = run_other_thread()
             self._probs = [p for _, _, _, p in r if p]
